@@ -27,9 +27,9 @@ type history struct {
 type priorOp struct{ row, kind int }
 
 // histories enumerates the receiver histories for a target. quick: new, two residue fills, after
-// each method of the table (its first operand kind). thorough: after each (method, kind) and after
-// every ordered pair of methods (first kinds).
-func histories(t *ot.Target, tier string) []history {
+// each method of the table (its first operand kind). thorough: after each (method, kind), and — for
+// the plain call (fresh exact output, no aliasing) — after every ordered pair of methods (first kinds).
+func histories(t *ot.Target, tier string, plain bool) []history {
 	hs := []history{{name: "new"}, {name: "residue:ones", fill: 1}, {name: "residue:pattern", fill: 2}}
 	if t.Randomized {
 		return hs
@@ -43,7 +43,7 @@ func histories(t *ot.Target, tier string) []history {
 			hs = append(hs, history{name: "after:" + r.Method + "/" + r.Kinds[k].Name, calls: []priorOp{{i, k}}})
 		}
 	}
-	if tier == "thorough" && len(t.Rows) <= 40 {
+	if tier == "thorough" && plain {
 		for i, r := range t.Rows {
 			for j, s := range t.Rows {
 				hs = append(hs, history{name: "after:" + r.Method + "," + s.Method, calls: []priorOp{{i, 0}, {j, 0}}})
@@ -377,7 +377,7 @@ func (d dev) weight() int {
 func methodScenario(envName string, t *ot.Target, ri int, tier string) engine.Scenario {
 	row := &t.Rows[ri]
 	name := envName + "/" + t.Name + "." + row.Method
-	hists := histories(t, tier)
+	histsPlain, histsOther := histories(t, tier, true), histories(t, tier, false)
 	base := "C09/" + t.Name + "." + row.Method + "/"
 	return engine.Scenario{Name: name, Bound: -1, Fn: func(c *engine.Chooser) {
 		e := ot.GetEnv(envName)
@@ -404,6 +404,10 @@ func methodScenario(envName string, t *ot.Target, ri int, tier string) engine.Sc
 			shapes = append(shapes, row.Out.Shapes...)
 		}
 		sh := shapes[c.Choose(len(shapes), "outshape")]
+		hists := histsOther
+		if pat.Name == "fresh" && sh == ot.ShapeExact {
+			hists = histsPlain
+		}
 		h := hists[c.Choose(len(hists), "history")]
 		d := dev{pat, sh, h}
 		leafKey := fmt.Sprint(name, "|", kind.Name, "|", pat.Name, "|", sh, "|", h.name)
